@@ -91,10 +91,27 @@ def parse_fields(body):
     return fields
 
 
+def nullary_helpers(src):
+    """`fn name() -> T { <one expression> }` defined in the file: name -> normalised body expression, so that a field
+    value written as `name()` is read as that expression (a refactoring that factors a repeated literal out)"""
+    out = {}
+    for m in re.finditer(r"(?:pub\s+)?(?:const\s+)?fn\s+(\w+)\s*\(\s*\)\s*->\s*[\w:<>]+\s*\{", src):
+        b0 = m.end() - 1
+        try:
+            b1 = matching(src, b0, "{", "}")
+        except Untranslatable:
+            continue
+        body = " ".join(src[b0 + 1:b1].split())
+        if ";" not in re.sub(r"\[[^\]\[]*\]", "[]", body) and "let " not in body:
+            out[m.group(1)] = body
+    return out
+
+
 def extract():
     raw = open(SRC).read()
     src = strip_comments(raw)
     ops = opcode_numbers(src)
+    helpers = nullary_helpers(src)
     ctors = []
     for m in re.finditer(r"pub\s+(?:const\s+)?(?:unsafe\s+)?fn\s+(new_\w+)\s*\(", src):
         name = m.group(1)
@@ -113,6 +130,10 @@ def extract():
         b0 = rest.index("{", lit)
         b1 = matching(rest, b0, "{", "}")
         fields = parse_fields(rest[b0 + 1:b1])
+        for fn_, v in list(fields.items()):
+            hm = re.fullmatch(r"(?:Self::)?(\w+)\(\)", v)
+            if hm and hm.group(1) in helpers:
+                fields[fn_] = helpers[hm.group(1)]
         ctors.append(build(name, params, fields, ops))
     if not ctors:
         raise Untranslatable("no constructors found")
